@@ -2,6 +2,8 @@ package main
 
 import (
 	"fmt"
+	"go/types"
+	"math"
 	"strings"
 
 	"golang.org/x/tools/go/ssa"
@@ -60,19 +62,66 @@ func inlineAllGeom(names ...string) func(*ssa.Function) bool {
 func runC18Fields(c *Ctx) {
 	inl := []string{"geom.(XY).Sub", "geom.(XY).lengthSq", "geom.(XY).Dot", "geom.(CoordinatesType).Is3D", "geom.(CoordinatesType).IsMeasured"}
 	typ := []float64{0, 1, 2, 3}
+	// The tolerance is specified end to end: the value that ToleranceXY(e) stores in
+	// the comparator is obtained by interpreting the option, and eq is then required
+	// to relate two coordinates iff their XY distance is <= e — whether the option
+	// stores e, e squared or anything else is the implementation's business.
+	eqf := c.P.Func("geom.(exactEqualsComparator).eq")
+	tol := c.P.Func("geom.ToleranceXY")
+	if eqf == nil || tol == nil || len(tol.AnonFuncs) != 1 {
+		c.Errorf("anchors geom.(exactEqualsComparator).eq / geom.ToleranceXY do not resolve")
+		return
+	}
+	field := ""
+	if st, ok := eqf.Params[0].Type().Underlying().(*types.Struct); ok {
+		for i := 0; i < st.NumFields(); i++ {
+			if isFloat(st.Field(i).Type()) {
+				field = canonFieldName(st.Field(i))
+			}
+		}
+	}
+	if field == "" {
+		c.Errorf("the comparator has no float field for the tolerance")
+		return
+	}
+	stored := func(e float64) (float64, string) {
+		m := &Model{Num: map[string]float64{}, Bool: map[string]bool{}, Missing: map[string]bool{}}
+		it := &k4interp{p: c.P, m: m, mem: map[string]k4val{"fv:within": {kind: 2, f: e}}}
+		var fvs []k4val
+		for range tol.AnonFuncs[0].FreeVars {
+			fvs = append(fvs, k4val{kind: 3, s: "fv:within"})
+		}
+		res, err := it.call(tol.AnonFuncs[0], []k4val{{kind: 3, s: "zero"}}, fvs)
+		if err != nil || len(res) != 1 || res[0].kind != 3 {
+			return 0, fmt.Sprintf("cannot interpret ToleranceXY: %v %v %s", err, res, missingList(m))
+		}
+		v, err := it.lookup(res[0].s+"."+field, nil0)
+		if err != nil || v.kind != 2 {
+			return 0, "ToleranceXY does not store a number in the comparator"
+		}
+		return v.f, ""
+	}
+	const e = 1.5
+	sE, why := stored(e)
+	s0, why0 := stored(0)
+	if why != "" || why0 != "" {
+		c.Undecided(tol.Pos(), FuncName(tol), "tolerance stored by the option", why+why0)
+		return
+	}
+	key := "$0." + field
 	runK4Spec(c, k4spec{rule: "C18.fields", fn: "geom.(exactEqualsComparator).eq", construct: "coordinate equality",
-		num:     []string{"$1.Type", "$2.Type", "$1.XY.X", "$1.XY.Y", "$2.XY.X", "$2.XY.Y", "$1.Z", "$2.Z", "$1.M", "$2.M", "$0.toleranceSq"},
+		num:     []string{"$1.Type", "$2.Type", "$1.XY.X", "$1.XY.Y", "$2.XY.X", "$2.XY.Y", "$1.Z", "$2.Z", "$1.M", "$2.M", key},
 		vals:    []float64{0, 1},
-		valsFor: map[string][]float64{"$1.Type": typ, "$2.Type": typ, "$0.toleranceSq": {0, 1.5}, "$1.XY.X": {0, 1, 1e-200}},
+		valsFor: map[string][]float64{"$1.Type": typ, "$2.Type": typ, key: {s0, sE}, "$1.XY.X": {0, 1, 1e-200}},
 		inline:  inl,
-		what:    "same type, XY exactly equal when no tolerance is set (else squared distance <= toleranceSq), Z equal iff 3D, M equal iff measured",
+		what:    "same type, XY exactly equal when no tolerance is set (else XY distance <= the e given to ToleranceXY, here 1.5), Z equal iff 3D, M equal iff measured",
 		want: func(m *Model) []string {
 			n := func(k string) float64 { return m.Num[k] }
 			dx, dy := n("$1.XY.X")-n("$2.XY.X"), n("$1.XY.Y")-n("$2.XY.Y")
 			t := int(n("$1.Type"))
-			within := dx*dx+dy*dy <= n("$0.toleranceSq")
-			if n("$0.toleranceSq") == 0 {
-				// no tolerance: exact equality (the squared distance underflows for tiny differences)
+			within := math.Hypot(dx, dy) <= e
+			if n(key) == s0 {
+				// no tolerance: exact equality (a squared distance underflows for tiny differences)
 				within = dx == 0 && dy == 0
 			}
 			ok := n("$1.Type") == n("$2.Type") && within &&
@@ -80,6 +129,32 @@ func runC18Fields(c *Ctx) {
 			return []string{b2s(ok)}
 		},
 	})
+	// extreme magnitudes: the tolerance must neither vanish nor swallow everything
+	for _, tc := range []struct {
+		e, d float64
+		want bool
+	}{{1e-165, 1e-170, true}, {1e-165, 1e-160, false}, {1e160, 1e300, false}, {1e160, 1e150, true}} {
+		sv, why := stored(tc.e)
+		if why != "" {
+			c.Undecided(eqf.Pos(), FuncName(eqf), "tolerance at extreme magnitudes", why)
+			return
+		}
+		m := &Model{Num: map[string]float64{key: sv, "$1.Type": 0, "$2.Type": 0, "$1.XY.X": tc.d, "$1.XY.Y": 0, "$2.XY.X": 0, "$2.XY.Y": 0}, Bool: map[string]bool{}, Missing: map[string]bool{}}
+		in := map[string]bool{}
+		for _, n := range inl {
+			in[n] = true
+		}
+		res, err := k4run(c.P, eqf, m, func(g *ssa.Function) bool { return in[FuncName(g)] })
+		if err != nil || len(res) != 1 || res[0].kind != 1 {
+			c.Undecided(eqf.Pos(), FuncName(eqf), "tolerance at extreme magnitudes", fmt.Sprintf("%v %s", err, missingList(m)))
+			return
+		}
+		if res[0].b != tc.want {
+			c.Bad(eqf.Pos(), FuncName(eqf), "tolerance at extreme magnitudes", fmt.Sprintf("with ToleranceXY(%v), points %v apart are related = %v, expected %v: the stored tolerance (%v) or the compared quantity under/overflows", tc.e, tc.d, res[0].b, tc.want, sv))
+			return
+		}
+	}
+	c.OK(eqf.Pos(), FuncName(eqf), "tolerance at extreme magnitudes", "ToleranceXY(1e-165) relates points 1e-170 apart but not 1e-160; ToleranceXY(1e160) relates points 1e150 apart but not 1e300")
 }
 
 func runC18Options(c *Ctx) {
@@ -99,6 +174,11 @@ func runC18Options(c *Ctx) {
 			atoms = append(atoms, eqKey(i, j))
 		}
 	}
+	// the closing point of each operand equals its first point in every ordinate
+	closedKey := func(op int) string {
+		return fmt.Sprintf("geom.(exactEqualsComparator).eq($0,geom.(Sequence).Get(geom.(LineString).Coordinates($%d),0),geom.(Sequence).Get(geom.(LineString).Coordinates($%d),%d))", op, op, n-1)
+	}
+	atoms = append(atoms, closedKey(1), closedKey(2))
 	problem, undec := "", ""
 	models := 0
 	inl := inlineAllGeom("geom.(exactEqualsComparator).lineStringsEq")
@@ -136,7 +216,9 @@ func runC18Options(c *Ctx) {
 					want := all(func(i int) (int, int) { return i, i })
 					if !want && ign {
 						want = all(func(i int) (int, int) { return i, n - 1 - i })
-						if !want && r1 && r2 {
+						// a rotation reuses the first point of b in place of its closing point:
+						// sound only when both closing points repeat the first in all ordinates
+						if !want && r1 && r2 && m.Bool[closedKey(1)] && m.Bool[closedKey(2)] {
 							for o := 1; o < n && !want; o++ {
 								oo := o
 								want = all(func(i int) (int, int) { return i, (i + oo) % (n - 1) }) ||
@@ -153,7 +235,7 @@ func runC18Options(c *Ctx) {
 								}
 							}
 						}
-						problem = fmt.Sprintf("with ignoreOrder=%v, ring(a)=%v, ring(b)=%v and matching vertex pairs {%s} the function returns %v; the documented identifications give %v", ign, r1, r2, strings.Join(tr, ""), res[0].b, want)
+						problem = fmt.Sprintf("with ignoreOrder=%v, ring(a)=%v, ring(b)=%v, closing point == first point in all ordinates (a: %v, b: %v) and matching vertex pairs {%s} the function returns %v; the documented identifications give %v", ign, r1, r2, m.Bool[closedKey(1)], m.Bool[closedKey(2)], strings.Join(tr, ""), res[0].b, want)
 						return false
 					}
 					return true
